@@ -749,6 +749,13 @@ func runCheck(specPath, tier, only string, workers int, noNative, trace bool) in
 	if len(hs) == 0 {
 		fatal2("no harness selected")
 	}
+	if onlyRe == nil {
+		if old, _ := filepath.Glob(filepath.Join(verifDir, "replays", spec.Property+"-*.json")); old != nil {
+			for _, f := range old {
+				os.Remove(f)
+			}
+		}
+	}
 	l, err := loadProgram(spec.Property, rels, spec.Vfs)
 	if err != nil {
 		fatal2("load: %v", err)
